@@ -357,7 +357,17 @@ func (x *fnv) isType(s *State, i *Term, t types.Type) *Term {
 			return c.And(c.Ne(i, c.Int(0)), x.implements(x.dyn(i), t))
 		}
 	}
-	return c.And(c.Ne(i, c.Int(0)), c.Eq(x.dyn(i), x.tid(t)))
+	ok := c.And(c.Ne(i, c.Int(0)), c.Eq(x.dyn(i), x.tid(t)))
+	// surjectivity: an interface value of dynamic type t is the box of its payload
+	if !i.HasBVar() && kindOf(t) != kUnsupported {
+		key := c.App("surj_"+typeStr(t), SBool, i)
+		if !s.typed[key] {
+			s.typed[key] = true
+			pay := x.unbox(s, i, t)
+			s.Assume(c.Implies(ok, c.Eq(c.App("box_"+typeStr(t), SInt, flatten(pay)...), i)))
+		}
+	}
+	return ok
 }
 
 // implements(tid, iface) is an uninterpreted predicate, with the facts for the type ids known to
